@@ -26,7 +26,7 @@ func init() {
 		ID: "C07", Level: "fault_enumeration", Primary: "fault_placements", EvalCount: "faults_injected",
 		Rule: "faults = handler panic (the panic value cycles through string, error, int, struct, pointer, byte slice and two runtime errors) in every operation kind (concurrently dispatched bind/search/modify/add/delete/extended; inline StartTLS; inline unbind; default route), each alone, after earlier requests, and " +
 			"while sibling handlers of the same connection are still running; connection reset mid-frame; truncated frame + FIN; malformed / undecodable frames (incl. inputs that used to panic the decoder); a client that stops " +
-			"reading a large response and resets (failed write) or is held; storms of hundreds of recovered panics; 24 clients whose connections fail at the same moment, 25 times over; a StartTLS upgrade while an earlier request of the connection is still in its handler; the structural mutations (children dropped/doubled/swapped/truncated, tag/class/length corruptions) of the canonical requests; established ldaps sessions that vanish (reset, mid-frame reset, bare FIN, reset with a request unanswered); TLS handshakes stalled and held on a TLS listener; the panic faults again on a server whose logger is switched off; descriptor exhaustion at accept (RLIMIT_NOFILE lowered until accept4 returns EMFILE); 300 (thorough 3000) abruptly ended connections in a row under a descriptor limit with room for 40. Each fault is placed within continuous verified traffic on bystander " +
+			"reading a large response and resets (failed write) or is held; storms of hundreds of recovered panics; 24 clients whose connections fail at the same moment, 25 times over; a StartTLS upgrade while an earlier request of the connection is still in its handler; the structural mutations (children dropped/doubled/swapped/truncated, tag/class/length corruptions) of the canonical requests; established ldaps sessions that vanish (reset, mid-frame reset, bare FIN, reset with a request unanswered); TLS handshakes stalled and held on a TLS listener; the panic faults again on a server whose logger is switched off; descriptor exhaustion at accept (RLIMIT_NOFILE lowered until accept4 returns EMFILE); 300 (thorough 3000) abruptly ended connections in a row under a descriptor limit with room for 40; a phase in which the client whose request made a handler panic stays connected and silent (loggers of hclog's text format and of the JSON format, at trace/debug/info/error/off): a connection opened before and one opened after the fault must be served while it stays. Each fault is placed within continuous verified traffic on bystander " +
 			"connections and followed by a fresh-connection probe. distinct_nontrivial = distinct (fault kind, placement) pairs injected while at least one bystander operation overlapped or followed",
 		Assume: []string{"the server runs in a child process; its death, or Run returning while not stopped, is observed by the supervisor / the harness",
 			"the faulted connection itself may die; only bystanders, new connections and the process are asserted"},
